@@ -77,11 +77,11 @@ fn write_case(em: &mut Emitter, n: u64) {
                 obs = obs.n(R_OK).bytes(&v[1..]);
                 // direct oracle: minimal form, size reported, read back in every mode
                 let lo = &v[1..];
-                let short = catch(|| { let mut w = ShortWriter { out: Vec::new(), k: 1 + n % 3 }; encode::write_header(&mut w, Tag::NULL, false, n).map(|_| w.out).ok() });
+                let awkward = awkward_targets(v, 1 + n % 3, &|t| { let mut t = t; encode::write_header(&mut t, Tag::NULL, false, n) });
                 if lo != ref_min_len(n as u64).as_slice() {
                     oracle = Oracle::Fail("write-not-minimal".into());
-                } else if short != Some(Some(v.clone())) {
-                    oracle = Oracle::Fail("header-incomplete-on-a-short-writing-target".into());
+                } else if let Some(what) = awkward {
+                    oracle = Oracle::Fail(format!("header: {}", what));
                 } else if el.map(|t| t - 1 - n) != Some(lo.len()) {
                     oracle = Oracle::Fail("reported-size".into());
                 } else {
